@@ -88,7 +88,7 @@ def run_case(case, obs) -> None:  # noqa: C901, PLR0915
     m = zoo.Model(spec)
     s = m.system
     cname = type(s).__name__
-    mk = spec.get("metric", "-")
+    mk = spec.get("metric", spec.get("generic", "-"))
     dim = m.dim
     q, p = m.random_point(rng)
     metric = m.ref_metric(q)
